@@ -142,6 +142,8 @@ def ann_skeleton(a, top=True):
     return _leaf_kind(a)
   c = canon(a)
   name = c[:c.index("[")]
+  if name == "Optional":
+    args = [x for x in args if x is not type(None)]
   return f"{name}[{', '.join(ann_skeleton(x, False) for x in args)}]"
 
 
